@@ -103,6 +103,12 @@ def run(prog, world, sem, rep):
                     continue
                 if y.op == "proj" and y.args[0] == subn:
                     continue
+                # (the subtraction may sit in a pure helper such as `deduct_peg_fee(amount, rate, required)`: its own expression)
+                from .C03 import through_pure
+                z = world.norm(through_pure(world, y), 0, False)
+                zs = z.args if z.op == "phi" else (z,)
+                if z != y and all(q == nf or q == subn or (q.op == "proj" and q.args[0] == subn) for q in zs):
+                    continue
                 return False
             return True
         # consumers: Mint.amount (minting paths), the wait-list / batch amount (unbond), the value converted (bsei -> stsei)
